@@ -433,7 +433,14 @@ def rule_r5b_body(body, counts):
 TIME_RE = re.compile(r'SystemTime::now\(\)\s*\.duration_since\(UNIX_EPOCH\)\s*\.unwrap\(\)\s*\.as_secs\(\)')
 
 
+TIME_DIFF_RE = re.compile(r'SystemTime::now\(\)\s*\.duration_since\(UNIX_EPOCH\)\s*\.unwrap\(\)\s*\.as_secs\(\)\s*-\s*([\w\.]+)')
+
+
 def rule_time(body, counts):
+    # RT2: `now - X` (seconds since an earlier stamp X): the wall clock is assumed not to run backwards
+    body, n2 = TIME_DIFF_RE.subn(lambda m: 'verif_secs_since(%s)' % m.group(1), body)
+    if n2:
+        counts['RT2'] = counts.get('RT2', 0) + n2
     """RT: the wall-clock expression becomes an opaque call (drops: panic if the clock is before the epoch)."""
     new, n = TIME_RE.subn('verif_now_secs()', body)
     if n:
@@ -639,6 +646,15 @@ def rule_r21_body(body, counts):
 RULES_BODY['R21'] = rule_r21_body
 
 
+def rule_r24_block(body, counts):
+    """R24 for a loop-body block: the block text is the body of a `for`; wrap it in a dummy loop header, apply R24, unwrap."""
+    wrapped = 'for x__ in y__ {\n' + body + '\n}'
+    out = rule_r24_body(wrapped, counts)
+    ob = out.index('{')
+    cb = out.rindex('}')
+    return out[ob + 1:cb]
+
+
 def rule_r24_body(body, counts):
     """R24 (always on): a guard `if C { continue; }` that is a top-level statement of a `for` body is replaced by wrapping the rest of
     that body in `if !(C) { .. }` (Verus 0.2026.09.13: "for-loops do not yet support continue"). Any other `continue` is left alone."""
@@ -740,9 +756,16 @@ def rule_r22_body(body, counts):
             break
         a, b, recv, ca, opt, mb, ta, tb = m.groups()
         cond = None
-        mf = re.match(r'^(.*)\.filter\(\|(\w+)\| ([^|]+)\)$', opt)
+        mf = None
+        fi = opt.find('.filter(|')
+        if fi >= 0:
+            op_ = fi + len('.filter')
+            cl_ = _match_brace(opt, op_)
+            mp = re.match(r'\|(\w+)\| (.+)$', opt[op_ + 1:cl_], flags=re.S)
+            if cl_ == len(opt) - 1 and mp:
+                mf = (opt[:fi], mp.group(1), mp.group(2).strip())
         if mf:
-            opt, fb, cond = mf.group(1), mf.group(2), mf.group(3).strip()
+            opt, fb, cond = mf
             if fb != b:
                 raise ExtractError('R22: filter parameter %s is not the loop variable %s' % (fb, b))
         if not (a == ca == ta and b == mb == tb):
@@ -768,6 +791,31 @@ def rule_r22_body(body, counts):
         hdr = 'for %s in %s {\nif %s { // [R22]' % (pat, recv, cond.strip())
         body = _wrap_loop_body(body, m.start(), hdr, 1)
         counts['R22'] = counts.get('R22', 0) + 1
+    return body
+
+
+def rule_r25_body(body, counts):
+    """R25: `let N = R.iter().filter_map(|P| {B}).collect::<Vec<_>>();`  ->  `let mut N = Vec::new(); for P in R.iter() { let fm__ = {B}; if let Some(x__) = fm__ { N.push(x__); } }`
+    (definition of filter_map + collect into a Vec; the closure body B is kept verbatim as a block expression and must not contain `return` or `?`)."""
+    pat = re.compile(r'^([ \t]*)let (\w+) = ([^\n;]+?)\.iter\(\)\.filter_map\(\|(\w+)\| \{', flags=re.M)
+    while True:
+        m = pat.search(body)
+        if not m:
+            break
+        ob = m.end() - 1
+        cb = _match_brace(body, ob)
+        tail = re.match(r'\)\s*\.collect::<Vec<_>>\(\);', body[cb + 1:])
+        if not tail:
+            raise ExtractError('R25: filter_map closure is not followed by .collect::<Vec<_>>();')
+        inner = body[ob + 1:cb]
+        code = re.sub(r'//.*', '', inner)
+        if re.search(r'\breturn\b', code) or '?' in re.sub(r'"(\\.|[^"\\])*"', '""', code):
+            raise ExtractError('R25: closure body contains return or ?')
+        ind, name, recv, p_ = m.group(1), m.group(2), m.group(3), m.group(4)
+        new = ('%slet mut %s = Vec::new(); // [R25]\n%sfor %s in %s.iter() {\n%s    let fm__ = {%s};\n%s    if let Some(x__) = fm__ { %s.push(x__); }\n%s}'
+               % (ind, name, ind, p_, recv, ind, inner, ind, name, ind))
+        body = body[:m.start()] + new + body[cb + 1 + tail.end():]
+        counts['R25'] = counts.get('R25', 0) + 1
     return body
 
 
@@ -825,6 +873,7 @@ def rule_r23_body(body, counts):
 
 RULES_BODY['R23'] = rule_r23_body
 RULES_BODY['R22'] = rule_r22_body
+RULES_BODY['R25'] = rule_r25_body
 
 
 def find_line(lines, regex, k, what):
@@ -1194,6 +1243,9 @@ def emit_fn(d, unit, report, canaries):
             raise ExtractError('block %s lacks //@head' % fname)
         sig = '\n'.join(heads[0])
         orig_text = body
+        pre_counts = {}
+        if d.opt('loopbody'):
+            body = rule_r24_block(body, pre_counts)
         # prologue: lines that must occur verbatim in the enclosing real function (they set up the block's environment)
         pro = []
         stripped = set(l.strip() for l in lines)
@@ -1219,7 +1271,7 @@ def emit_fn(d, unit, report, canaries):
     home = d.opt('unit')
     props = (d.opt('props', '') or '').split(',')
     rules = list(filter(None, (d.opt('rules', '') or '').split(',')))
-    counts = {}
+    counts = dict(locals().get('pre_counts') or {})
     info = {}
     newname = d.opt('as')
     # --- signature
